@@ -321,7 +321,9 @@ def bwr_ls_cases(ctx, rnd, n):
         fin = {"B": fb["B"], "C": fb["C"], "D": (0, -1)}
         # the documented decay option has_barrier_factor: False must not remove the resonance line shape (decay-level cases below)
         has_bf = (k % 2 == 0)
-        cfg = ampkit.three_body_config(M0, mf, res, top=(1, -1), fin=fin, decay_opts={"R_BC": dict({"p_break": True}, **({} if has_bf else {"has_barrier_factor": False}))})
+        cfg = ampkit.three_body_config(M0, mf, res, top=(1, -1), fin=fin, decay_opts={"R_BC": {"p_break": True}})
+        if not has_bf:
+            cfg["decay"]["R_BC"] = list(cfg["decay"]["R_BC"]) + [{"has_barrier_factor": False}]   # option of the decay R_BC -> B C itself
         config = ConfigLoader(cfg)
         amp = config.get_amplitude()
         part = [p for p in amp.decay_group.resonances if str(p) == "R_BC"][0]
@@ -470,6 +472,55 @@ def radius_cases(ctx, rnd, n):
     return cases
 
 
+KNOWN_DOM = {
+    "gs": ("tf_pwa/amp/base.py ParticleGS: inherited Particle.get_sympy_dom", "dom_GS_rho",
+           "GS_rho inherits the plain BWR symbolic denominator m0^2-m^2-i m0 Gamma(m): the f(m) term of its documented (and numeric) denominator is missing, so R(m)*dom(m) is not the constant 1 + D Gamma0/m0 and solve_pole returns the BWR pole"),
+    "below": ("tf_pwa/amp/core.py Particle.get_sympy_dom for BWR2 / BWR_below with m0 below threshold", "dom_m0_below_threshold",
+              "BWR2 / BWR_below with m0 below the m1+m2 threshold: the numeric width takes the principal branch of sqrt(q^2/q0^2) (BWR_below: q0 from the ad-hoc effective mass) while the inherited symbolic BWR denominator continues q0 = sqrt(q0^2) = +i|q0|: R(m)*dom(m) != 1"),
+}
+
+
+def known_dom_cases(ctx):
+    """fixed reproducers of the two OPEN symbolic-denominator findings (hunt round 2, finding 2): no small safe repair"""
+    import sympy
+    import tf_pwa.breit_wigner as bw
+    from tf_pwa.utils import create_test_config
+    from tf_pwa.formula import _flatten
+    cases = []
+
+    def dom_at(part, m):
+        var = part.get_sympy_var()
+        dom = part.get_sympy_dom(*var)
+        nums = [float(i) for i in _flatten(part.get_num_var())]
+        return complex(sympy.N(dom.subs(dict(zip(_flatten(var[1:]), nums))).subs({var[0]: m}), 30))
+
+    def amp_path(part, m):
+        dec = part.decay[0]
+        dat = {part: {"m": T(m)}}
+        dc = {"|q|": dec.get_relative_momentum(dat, True), "|q0|": dec.get_relative_momentum(dat, False),
+              "|q|2": dec.get_relative_momentum2(dat, True), "|q0|2": dec.get_relative_momentum2(dat, False)}
+        return c1(part.get_amp({"m": T(m)}, dc))
+
+    def prod_stmt(val, dv, target):
+        return "(Rabs (%s * %s - %s * %s - %s) <= %s /\\ Rabs (%s * %s + %s * %s) <= %s)%%R" % (
+            Rq(val.real), Rq(dv.real), Rq(val.imag), Rq(dv.imag), Rq(target), Rq(1e-6), Rq(val.real), Rq(dv.imag), Rq(val.imag), Rq(dv.real), Rq(1e-6))
+
+    # GS_rho: R(m) * dom(m) = 1 + D Gamma0 / m0 (the documented constant numerator)
+    m0, g0, m = 0.775, 0.149, 0.6
+    part = [p for p in create_test_config("GS_rho", {"J": 1, "P": -1, "mass": m0, "width": g0}, {}).get_amplitude().decay_group.resonances if str(p) == "R_BC"][0]
+    val = amp_path(part, m); dv = dom_at(part, m)
+    num = 1 + f1(bw.dFun(T(m0 * m0), T(0.13957039), T(0.1349768))) * g0 / m0
+    cases.append(("kdom_gs", prod_stmt(val, dv, num), "split; interval with (i_prec 90)",
+                  {"function": "get_sympy_dom(GS_rho)", "args": {"m": m, "m0": m0, "g0": g0, "numerator": num}, "impl": str(val), "dom": str(dv), "known": "gs"}))
+    # BWR2 with m0 below threshold (0.15 < 0.1 + 0.1): R(m) * dom(m) = 1
+    m0, g0, m = 0.15, 0.05, 0.5
+    part = [p for p in create_test_config("BWR2", {"J": 0, "P": 1, "mass": m0, "width": g0}, {}).get_amplitude().decay_group.resonances if str(p) == "R_BC"][0]
+    val = amp_path(part, m); dv = dom_at(part, m)
+    cases.append(("kdom_below", prod_stmt(val, dv, 1.0), "split; interval with (i_prec 90)",
+                  {"function": "get_sympy_dom(BWR2), m0 below threshold", "args": {"m": m, "m0": m0, "g0": g0, "m1": 0.1, "m2": 0.1}, "impl": str(val), "dom": str(dv), "known": "below"}))
+    return cases
+
+
 def run(ctx):
     rnd = random.Random(ctx.seed * 1000003 + 15)
     ctx.rule = ("seeded random masses above (and for BWR2/BWR_below/Flatte/Bprime_q2 below) threshold, L=0..8, d in {1,3,5}; one Coq-Interval goal per "
@@ -484,6 +535,7 @@ def run(ctx):
     cases += bwr_ls_cases(ctx, rnd, 10 if ctx.tier == "quick" else 60)
     cases += radius_cases(ctx, random.Random(ctx.seed * 1000003 + 1501), 2 if ctx.tier == "quick" else 8)
     cases += c15_extra.cases(ctx, rnd, ctx.tier == "quick")  # BWR_LS2, MultiBWR
+    cases += known_dom_cases(ctx)  # two OPEN findings about inherited symbolic denominators (fixed reproducers)
     cases += c15_extra.known_cases(ctx)  # MultiBW = documented combination of constant-width BW (fixed in /repo 4a6337b)
     ctx.log("sympy cases", len(cases))
     ctx.evaluations += len(cases)
@@ -500,13 +552,17 @@ def run(ctx):
                 ctx.fail("line_shape", cid, "BWR_LS default (fix_bug1=False) uses m/m0 where the documented rho/rho0 gives m0/m", inp=meta,
                          site="tf_pwa/amp/split_ls.py ParticleBWRLS default running width", fingerprint="F6", failing_input=meta)
                 continue
+            if meta.get("known") in KNOWN_DOM:
+                site, fp, what = KNOWN_DOM[meta["known"]]
+                ctx.fail("line_shape", cid, what, inp=meta, site=site, fingerprint=fp, failing_input=meta)
+                continue
             rv = ref_value(fn, meta["args"]) if isinstance(meta["args"], list) else None
             fi = dict(meta, documented_value=str(rv) if rv is not None else "see model coq/Shape/LineShapes.v", coq_result=res[cid])
             ctx.fail("line_shape", cid, "implementation value not within tolerance of the documented formula (%s)" % res[cid],
                      inp=meta, site=fn, fingerprint=fn, failing_input=fi)
     return common.finish(ctx, technique=TECHNIQUE, extra_assumptions=[
         "real-number model; float rounding absorbed by rtol 1e-11 (1e-8..1e-9 where the code goes through tf complex sqrt)",
-        "models not covered: Kmatrix, LASS, FlatteGen, interpolation/spline particles (see DESIGN.md C15); MultiBWR: every sub-resonance's running width uses ONE q0 (the configured `mass`), i.e. it is the documented-by-code sum of BWR2 terms at a common q0, not a sum of independent BWRs (theorem C15_multibwr_sub_resonance_pole_refuted; the docstring gives no formula, observation O5)"])
+        "models not covered: Kmatrix, LASS, FlatteGen, interpolation/spline particles (see DESIGN.md C15); MultiBWR (docstring: \"Combine Multi BWR\", no formula): sum_k c_ik BWR_k(m) x barrier(l_i), every member a BWR normalised at its OWN mass (after /verif/build/fix2_C15 patch_3; the old common-q0 behaviour is theorem C15_multibwr_sub_resonance_pole_refuted), the coupling's barrier factor normalised at the first member's mass, all running widths with the smallest l of the decay; LS-decay: has_barrier_factor does not remove R_i(m) (patch_8); two OPEN findings about inherited symbolic denominators (GS_rho, m0 below threshold)"])
 
 
 def replay(rep):
